@@ -5,8 +5,9 @@ import runner, coreutil, gen_core
 from coreutil import Scenario, events, reads
 from refcodec import server_frame, close_payload
 
-TRUSTED = ['correspondence: harness/world.py', 'monitor automaton in harness/props/c07.py written from the property text']
-ASSUMPTIONS = ['time advances only inside selector.wait (virtual clock)', 'every generated environment ends with a transport-ending step, so INCOMPLETE means the iterator did not terminate']
+TRUSTED = ['correspondence: harness/world.py', 'monitor automaton in harness/props/c07.py written from the property text (independent of Lomond.Core.Mon.step, which the theorems use; the Lean automaton is slightly stricter: Rejected only before Ready, Unresponsive only after Ready and followed by nothing but Disconnected, Connected exactly once)']
+ASSUMPTIONS = ['time advances only inside selector.wait (virtual clock)', 'every generated environment ends with a transport-ending step, so INCOMPLETE means the iterator did not terminate',
+               'theorems quantify over every cfg, every application (any reaction to any event history, including abandoning the iterator) and every environment script; completeness (exactly one terminal event, last) is proved whenever run() returns, which it does unless the application abandons it or the script is exhausted (C07.run_outcomes, C07.terminates_after_transport_end)']
 
 AFTER_READY = ('text', 'binary', 'ping', 'pong', 'poll', 'closing', 'closed')
 TERMINAL = ('connect_fail', 'disconnected')
